@@ -72,6 +72,11 @@ def main():
         rc, o = sh("git apply %s" % os.path.join(out, "patch.diff"), cwd=REPO)
         if rc != 0:
             sys.exit("patch does not apply to /repo: " + o)
+        saved = {}
+        for pid in props:
+            ev = os.path.join(VERIF, "evidence", pid + ".json")
+            if os.path.exists(ev):
+                saved[ev] = open(ev).read()        # evidence describes runs on /repo as it is, not on a seeded tree: put it back afterwards
         try:
             for pid in props:
                 cmd = "./check %s%s" % (pid, " --thorough" if thorough else "")
@@ -81,6 +86,9 @@ def main():
                 meta["checks"][pid + (":thorough" if thorough else ":quick")] = {"rc": rc, "violation_lines": vio, "summary": last[:400]}
                 print(pid, "rc=%d" % rc, vio[:1], last[:200])
         finally:
+            for ev, txt in saved.items():
+                with open(ev, "w") as fh:
+                    fh.write(txt)
             sh("git checkout -- .", cwd=REPO)
             rc, st = sh("git status --porcelain", cwd=REPO)
             if st.strip():
